@@ -594,10 +594,16 @@ func (m *methodCtx) checkIDs(effs []effect) {
 		par := cfgx.Parents(m.fd.Body)
 		var child ast.Node = as
 		for p := par[as]; p != nil; child, p = p, par[p] {
-			if is, ok := p.(*ast.IfStmt); ok && is.Else == child {
-				if init, ok := is.Init.(*ast.AssignStmt); ok && len(init.Rhs) == 1 {
-					if rix, ok := init.Rhs[0].(*ast.IndexExpr); ok && types.ExprString(rix.Index) == key {
-						if u, ok := is.Cond.(*ast.UnaryExpr); ok && u.Op == token.NOT {
+			if is, ok := p.(*ast.IfStmt); ok && (is.Else == child || is.Body == child) {
+				if init, ok := is.Init.(*ast.AssignStmt); ok && len(init.Rhs) == 1 && len(init.Lhs) == 2 {
+					if rix, ok := init.Rhs[0].(*ast.IndexExpr); ok && types.ExprString(rix.Index) == key && types.ExprString(rix.X) == types.ExprString(ix.X) {
+						okName := types.ExprString(init.Lhs[1])
+						cond := ast.Unparen(is.Cond)
+						// else-arm of `!ok`, or then-arm of `ok`: the key exists
+						if u, isNot := cond.(*ast.UnaryExpr); isNot && u.Op == token.NOT && types.ExprString(ast.Unparen(u.X)) == okName && is.Else == child {
+							return true
+						}
+						if types.ExprString(cond) == okName && is.Body == child {
 							return true
 						}
 					}
